@@ -272,3 +272,14 @@ func init() {
 		ruleBlockFilters(c, r, "")
 	}
 }
+
+func init() {
+	debugRules["r4"] = func(c *Ctx, r *Report) {
+		ruleSizeSign(c, r, "")
+		ruleLookahead(c, r, "")
+		ruleDeferResult(c, r, "")
+		ruleNilOnErr(c, r, "")
+		ruleInitClosures(c, r, "")
+		ruleDashDash(c, r, "")
+	}
+}
